@@ -315,16 +315,25 @@ class POP3CommandHandler:
 
     ##################################################################
     #
+    def _get_msg(self, pop3_num: int) -> Any:
+        """
+        Get the message for a POP3 message number by its UID: MH message
+        keys change when the folder is packed and are re-used after the
+        highest message has been removed. Raises KeyError if it is gone.
+        """
+        assert self.mbox is not None
+        return self.mbox.get_msg_by_uid(self.snapshot_uids[pop3_num - 1])
+
+    ##################################################################
+    #
     def _get_msg_size(self, pop3_num: int) -> int:
         """
         Get the size of a message in octets, computing lazily and
         caching the result.
         """
         if pop3_num not in self.msg_sizes:
-            assert self.mbox is not None
-            msg_key = self.snapshot_msg_keys[pop3_num - 1]
             try:
-                msg = self.mbox.get_msg(msg_key)
+                msg = self._get_msg(pop3_num)
                 self.msg_sizes[pop3_num] = get_msg_size(msg)
             except (KeyError, FileNotFoundError):
                 # Message disappeared (concurrent modification).
@@ -413,10 +422,8 @@ class POP3CommandHandler:
             await self.client.push("-ERR no such message\r\n")
             return True
 
-        assert self.mbox is not None
-        msg_key = self.snapshot_msg_keys[n - 1]
         try:
-            msg = self.mbox.get_msg(msg_key)
+            msg = self._get_msg(n)
         except (KeyError, FileNotFoundError):
             await self.client.push("-ERR message not available\r\n")
             return True
@@ -515,10 +522,8 @@ class POP3CommandHandler:
             await self.client.push("-ERR invalid number of lines\r\n")
             return True
 
-        assert self.mbox is not None
-        msg_key = self.snapshot_msg_keys[n - 1]
         try:
-            msg = self.mbox.get_msg(msg_key)
+            msg = self._get_msg(n)
         except (KeyError, FileNotFoundError):
             await self.client.push("-ERR message not available\r\n")
             return True
